@@ -49,6 +49,8 @@ def decode(a):
     a = np.asarray(a)
     if a.size == 0:
         return "corrupt(empty)"
+    if a.size == 0 or not np.isfinite(a.flat[0]):
+        return "corrupt(shape %s dtype %s first %r)" % (a.shape, a.dtype, a.flat[0] if a.size else None)
     c = int(a.flat[0])
     if c != a.flat[0] or c < 0:
         return "corrupt(%r)" % (a.flat[0],)
@@ -63,7 +65,7 @@ def decode_named(name, a):
     integer code as value, everything else is arr(code)."""
     a = np.asarray(a)
     if name in ("it", "t"):
-        if a.shape != () or float(a) != int(a):
+        if a.shape != () or not np.isfinite(a) or float(a) != int(a):
             return "corrupt(%s %r)" % (name, a)
         if name == "it" and a.dtype.kind != "i":
             return "corrupt(it dtype %s)" % a.dtype
